@@ -255,6 +255,8 @@ def gen_update_case(rng, i, witness=None):
     ty = rng.choice([5, 5, 5, 5, 5, 3, 3, 3, 2, 1, 0])
     minsz = rng.choice([0, 0, 0, 1, 6, 7, 9, 10, 16, 17, 100, 4294967295])
     tags = ["ty=%d" % ty]
+    if witness is None and rng.random() < 0.15:
+        minsz = rng.choice([0, 5, 6, 7, 9, 10])
     # ---- text layout
     npages = 4
     first = rng.choice([0, 1])                      # first text page
@@ -289,11 +291,35 @@ def gen_update_case(rng, i, witness=None):
     else:
         tramp = (tend + PG - 1) // PG * PG - 16
     # ---- functions
+    tight = witness is None and rng.random() < 0.3     # adjacent functions exactly as long as a visit looks
     nf = rng.choice([1, 2, 3, 3, 4, 5, 6])
     names = rng.sample(UNAMES, nf)
     funcs = []
     data = bytearray()
+    if tight:
+        tags.append("tight-layout")
     for k in range(nf):
+        if tight:
+            kind = rng.choice(["gcc", "gcc", "clang", "fe1", "fe2", "call", "ff15", "push", "ret"])
+            endbr = kind not in ("call", "ff15", "ret") and rng.random() < 0.4
+            body = (ENDBR if endbr else b"") + (b"\xc3" if kind == "ret" else PROLOGUES[kind])
+            if kind == "ret":
+                size = rng.choice([1, 2, 4])
+            elif kind in ("call", "ff15"):
+                size = 6
+            else:
+                size = (9 if endbr else 6) + rng.choice([0, 0, 1])
+            code = bytearray(body)
+            while len(code) < size:
+                code.append(0xc3)
+            code = code[:max(size, len(body))] if kind != "ret" else code[:size]
+            spacing = len(code)
+            size = spacing
+            funcs.append({"off": len(data), "size": size, "name": names[k], "named": True, "kind": kind,
+                          "endbr": endbr, "stype": rng.choice([84, 84, 116, 119])})
+            data += code
+            tags.append("pro=%s%s" % ("endbr+" if endbr else "", kind))
+            continue
         kind = rng.choice(["gcc", "gcc", "gcc", "clang", "fe1", "fe2", "push", "nop4", "near", "call", "ff15",
                            "ff25", "endbr-half"])
         endbr = rng.random() < 0.35
@@ -346,7 +372,9 @@ def gen_update_case(rng, i, witness=None):
         a = wbase + f["off"]
         if f["named"]:
             syms.append((a, f["size"], f["stype"], f["name"]))
-        if ty == 5:
+        if ty == 5 and tight:
+            targets.append(a)
+        elif ty == 5:
             r = rng.random()
             if r < 0.85:
                 targets.append(a)
@@ -358,7 +386,7 @@ def gen_update_case(rng, i, witness=None):
                 tags.append("target-dup")
             if not f["named"]:
                 tags.append("fake-sym")
-    if ty == 5 and rng.random() < 0.15:
+    if ty == 5 and rng.random() < 0.15 and not tight:
         rng.shuffle(targets)
     ptype = rng.choice([1, 2, 2, 3])
     present = [f["name"] for f in funcs]
@@ -467,6 +495,7 @@ def evaluate(ctx, pcases, ucases, name="cases", fixed=False):
         ("p_violations", "bad_indices p_ok pcases 0"),
         ("u_mismatch", "bad_indices (u_agrees %s) ucases 0" % cbool(fixed)),
         ("u_violations", "bad_indices u_ok ucases 0"),
+        ("u_in_layout", "bad_indices (fun u => negb (u_layout u)) ucases 0"),
     ])
     if res is None:
         return None
@@ -553,6 +582,13 @@ def verdict_inproc(ctx, pcases, ucases, res):
                            "mode": "update", "case": case_json(c), "implementation": impl_json(c)}, False)
     ctx.extra["disagreements_checked"] = ctx.extra.get("disagreements_checked", 0) + len(res["p_mismatch"]) + len(
         res["u_mismatch"])
+    inl = [i for i in res.get("u_in_layout", []) if i < len(ucases)]
+    ctx.extra["update_cases_in_domain_of_C14_update_exact_layout"] = ctx.extra.get(
+        "update_cases_in_domain_of_C14_update_exact_layout", 0) + len(inl)
+    ctx.extra["...of_which_changed_bytes"] = ctx.extra.get("...of_which_changed_bytes", 0) + sum(
+        1 for i in inl if "impl" in ucases[i] and ucases[i]["impl"]["after"] != ucases[i]["before"])
+    ctx.extra["...of_which_tight_adjacent_layout"] = ctx.extra.get("...of_which_tight_adjacent_layout", 0) + sum(
+        1 for i in inl if "tight-layout" in ucases[i].get("tags", []))
 
 
 def common_meta(ctx):
